@@ -35,7 +35,10 @@ def run(R, cfg, over=None):
         from checks import bmc
         # harness opt-in BMC_EMITTED: from the 2nd step on "mask-respecting" means respecting the mask the environment
         # EMITTED with the previous timestep (the literal property; exposes a wrong/stale mask as a constraint violation)
-        return bmc.run(R, H, obl, legal_only=True, emitted=getattr(H, "BMC_EMITTED", False))
+        r = bmc.run(R, H, obl, legal_only=True, emitted=getattr(H, "BMC_EMITTED", False))
+        if hasattr(H, "kernels_c06"):
+            H.kernels_c06(R)
+        return r
     sp = D.build_step(R, H)
     pre_c = [v.z() for _, v in (H.constraints(sp.st) or [])]
     D.prove_list(R, sp, obl, extra_A=pre_c, guard=legal)
